@@ -21,7 +21,7 @@ def main():
     except ValueError:
         seed = 0
     mod = importlib.import_module(f"props.{a.prop}")
-    ctx = vlib.Ctx(a.prop, tier, seed)
+    ctx = vlib.Ctx(a.prop, tier, seed, replay=bool(a.replay))
     if a.replay:
         rc = mod.replay(ctx, a.replay)
         sys.exit(rc)
